@@ -551,3 +551,56 @@ func uniq(l []string) []string {
 	sort.Strings(out)
 	return out
 }
+
+// replayMain: gosym replay <file> — re-runs a recorded counterexample (evidence/replay/*.json)
+// against /repo's current tree: natively (go test with the model as input) for harnesses that
+// do not depend on environment inputs, otherwise in the interpreter with every input pinned.
+// Exit 1 and a VIOLATION line if the recorded assertion fails again, 0 if it does not.
+func replayMain(args []string) int {
+	if len(args) != 1 {
+		fmt.Fprintln(os.Stderr, "usage: gosym replay <evidence/replay/file.json>")
+		return 2
+	}
+	data, err := os.ReadFile(args[0])
+	if err != nil {
+		fmt.Fprintln(os.Stderr, err)
+		return 2
+	}
+	enc := map[string]string{}
+	if err := json.Unmarshal(data, &enc); err != nil {
+		fmt.Fprintln(os.Stderr, err)
+		return 2
+	}
+	v := sym.Violation{Entry: enc["_entry"], Label: enc["_label"], Model: map[string]string{}}
+	for k, s := range enc {
+		if k == "_entry" || k == "_label" {
+			continue
+		}
+		b := make([]byte, 0, len(s))
+		for _, r := range s {
+			b = append(b, byte(r))
+		}
+		v.Model[k] = string(b)
+	}
+	id := v.Entry
+	if i := strings.IndexByte(id, '_'); i > 0 {
+		id = id[:i]
+	}
+	p, err := sym.Load(sym.LoadConfig{HarnessDir: harnessDir, Patterns: []string{rootPkg}, RootPkg: rootPkg, Overlay: loadOverlay()})
+	if err != nil {
+		fmt.Fprintln(os.Stderr, "load:", err)
+		return 2
+	}
+	ok := p.ReplayConcrete(v)
+	how := "interpreter with pinned inputs"
+	if !ok && !sym.NoNativeReplay[v.Entry] {
+		ok, _ = nativeReplay(v, args[0])
+		how = "native go test"
+	}
+	if ok {
+		fmt.Printf("VIOLATION property=%s replay=%s\n  entry=%s assertion=%q reproduced (%s)\n", id, args[0], v.Entry, v.Label, how)
+		return 1
+	}
+	fmt.Printf("replay of %s: assertion %q of %s does not fail on the current tree\n", args[0], v.Label, v.Entry)
+	return 0
+}
